@@ -111,6 +111,9 @@ def onepass_problems(ff: FuncFlow, p: str) -> List[str]:
       parent = m.parent_of.get(x)
       if isinstance(parent, ast.Call) and ff.ext(parent.func) == 'builtins.isinstance':
         continue
+      # next(p) draws one item: stepping through an iterator item by item (also in a loop) is what an iterator is for
+      if isinstance(parent, ast.Call) and ff.ext(parent.func) == 'builtins.next' and parent.args and parent.args[0] is x:
+        continue
       # keeping a reference (x = p, self.f = p, a if c else p, return p) does not consume the iterable
       if (isinstance(parent, (ast.Assign, ast.AnnAssign, ast.Return)) and getattr(parent, 'value', None) is x) or (
           isinstance(parent, ast.IfExp) and (parent.body is x or parent.orelse is x)):
